@@ -122,10 +122,11 @@ def main():
                  ("maxwell", "magnetic_field", "RWG", "SNC", 1.1 + 0.2j), ("sparse", "laplace_beltrami", "P1", "P1", None), ("sparse", "identity", "RWG", "SNC", None)]
 
     def spaces(grid, tk, sk, swapped=None, open_grid=False):
-        kw = dict(swapped_normals=swapped) if swapped else {}
+        """`swapped`: None, a list (both spaces) or a pair (trial list or None, test list or None)."""
+        sw_t, sw_s = swapped if isinstance(swapped, tuple) else (swapped, swapped)
         inc = dict(include_boundary_dofs=True) if open_grid else {}
-        mk = lambda kind: api.function_space(grid, *KA[kind], **kw, **(inc if kind in ("P1", "RWG", "SNC") else {}))  # noqa: E731
-        return mk(tk), mk(sk)
+        mk = lambda kind, sw: api.function_space(grid, *KA[kind], **(dict(swapped_normals=sw) if sw else {}), **(inc if kind in ("P1", "RWG", "SNC") else {}))  # noqa: E731
+        return mk(tk, sw_t), mk(sk, sw_s)
 
     def assemble(fam, op, trial, test, k, r, s, part="full"):
         par = O.params(api, r, s)
@@ -163,7 +164,11 @@ def main():
         actions.append(("renumber", mm, 1.0, None, "relabel"))
         actions.append(("rotate_local", M.rotate_local(mesh, rng.integers(0, 3, size=mesh.ne)), 1.0, None, "relabel"))
         flipdom = [doms[0]]
-        actions.append(("flip_vs_swapped", M.flip_orientation(mesh, np.isin(mesh.D, flipdom)), 1.0, flipdom, "relabel"))
+        mflip = M.flip_orientation(mesh, np.isin(mesh.D, flipdom))
+        actions.append(("flip_vs_swapped", mflip, 1.0, (flipdom, None), "relabel"))
+        # the flag on ONE space only: (trial swapped, test plain) on the grid == (trial plain, test swapped) on the flipped grid
+        actions.append(("flip_vs_swapped_trial_only", mflip, 1.0, ((flipdom, None), (None, flipdom)), "relabel"))
+        actions.append(("flip_vs_swapped_test_only", mflip, 1.0, ((None, flipdom), (flipdom, None)), "relabel"))
         grid = M.to_grid(mesh)
         ea, va = np.asarray(grid.edge_adjacency), np.asarray(grid.vertex_adjacency)
         adj_seen["edge"] |= {tuple(c) for c in ea[2:].T.tolist()}
@@ -187,9 +192,12 @@ def main():
                 cid = "%s:%s:%s.%s[%s,%s]" % (mname, aname, fam, op, tk, sk)
                 if not ctx.want(cid):
                     continue
+                if aname.endswith("_only") and not (op in ("double_layer", "adjoint_double_layer", "hypersingular", "magnetic_field") or "SNC" in (tk, sk)):
+                    continue   # one-sided flags only where the normal enters the operator
                 with ctx.guard(cid, "equivariance:%s" % aname):
-                    trial, test = spaces(grid, tk, sk, swapped0, open_grid)
-                    trial2, test2 = spaces(grid2, tk, sk, None, open_grid)
+                    sw1, sw2 = swapped0 if swapped0 is not None else (None, None)
+                    trial, test = spaces(grid, tk, sk, sw1, open_grid)
+                    trial2, test2 = spaces(grid2, tk, sk, sw2, open_grid)
                     Pt, dt, okt = signed_permutation(basis_matrix(trial, where0, Rm), basis_matrix(trial2, where2))
                     Ps, ds, oks = signed_permutation(basis_matrix(test, where0, Rm), basis_matrix(test2, where2))
                     if not (okt and oks) or max(dt, ds) > 1e-9:
